@@ -25,16 +25,19 @@ package srvkit
 
 import (
 	"bytes"
+	"context"
 	"encoding/binary"
 	"encoding/json"
 	"fmt"
 	"io"
 	"os"
 	"path/filepath"
+	"reflect"
 	"regexp"
 	"sort"
 	"sync"
 	"time"
+	"unsafe"
 
 	"tunnox-core/internal/app/server"
 	"tunnox-core/internal/cloud/repos"
@@ -51,6 +54,11 @@ type CommandOptions struct {
 	Library     bool     // also register the command package's own server-side handlers (see above)
 	BaseDomains []string // HTTP domain base domains; the server's defaults when empty
 	EmptyOnly   bool     // install an executor with an empty registry (used to probe which command types never reach the executor)
+	// DomainGate, when set, is called at the start of every HTTPDomainMappingRepository.CheckSubdomainAvailable
+	// the HTTP domain handlers make (the storage-backed step of HTTPDomainCreate / CheckSubdomain /
+	// GenSubdomain that precedes any use of the caller's identity). It may block: that is how a driver plays
+	// a slow storage call and schedules concurrent commands.
+	DomainGate func(subdomain, baseDomain string)
 }
 
 // Commands is the command side of a Server.
@@ -104,7 +112,11 @@ func (s *Server) EnableCommands(o CommandOptions) (*Commands, error) {
 	if err := server.NewMappingCommandHandlers(c.ConnCodes, s.SM).RegisterHandlers(c.Registry); err != nil {
 		return nil, err
 	}
-	if err := server.NewHTTPDomainCommandHandlers(s.SM, c.Domains).RegisterHandlers(c.Registry); err != nil {
+	var domainRepo repos.IHTTPDomainMappingRepository = c.Domains
+	if o.DomainGate != nil {
+		domainRepo = &gatedDomainRepo{IHTTPDomainMappingRepository: c.Domains, gate: o.DomainGate}
+	}
+	if err := server.NewHTTPDomainCommandHandlers(s.SM, domainRepo).RegisterHandlers(c.Registry); err != nil {
 		return nil, err
 	}
 	if o.Library {
@@ -118,6 +130,43 @@ func (s *Server) EnableCommands(o CommandOptions) (*Commands, error) {
 		}
 	}
 	return c, nil
+}
+
+// gatedDomainRepo is the real repository with a scheduling seam in front of the availability check.
+type gatedDomainRepo struct {
+	repos.IHTTPDomainMappingRepository
+	gate func(subdomain, baseDomain string)
+}
+
+func (g *gatedDomainRepo) CheckSubdomainAvailable(ctx context.Context, subdomain, baseDomain string) (bool, error) {
+	g.gate(subdomain, baseDomain)
+	return g.IHTTPDomainMappingRepository.CheckSubdomainAvailable(ctx, subdomain, baseDomain)
+}
+
+// SetDuplexTimeout shortens the time CommandExecutor.executeDuplex waits for a handler (RPCManager.timeout,
+// 30 s, fixed at construction: the executor keeps its RPCManager in an unexported field and offers no
+// option). The value is configuration, not behaviour; it is reached through the field because there is
+// no other way from outside the package. An error means the executor's layout changed: callers then
+// have to wait for the real 30 s.
+func (c *Commands) SetDuplexTimeout(d time.Duration) (err error) {
+	defer func() {
+		if r := recover(); r != nil {
+			err = fmt.Errorf("srvkit: cannot reach the executor's RPC manager: %v", r)
+		}
+	}()
+	f := reflect.ValueOf(c.Executor).Elem().FieldByName("rpcManager")
+	if !f.IsValid() || f.Kind() != reflect.Ptr || f.IsNil() {
+		return fmt.Errorf("srvkit: CommandExecutor has no rpcManager field")
+	}
+	rm, ok := reflect.NewAt(f.Type(), unsafe.Pointer(f.UnsafeAddr())).Elem().Interface().(*command.RPCManager)
+	if !ok || rm == nil {
+		return fmt.Errorf("srvkit: CommandExecutor.rpcManager is not a *command.RPCManager")
+	}
+	rm.SetTimeout(d)
+	if rm.GetTimeout() != d {
+		return fmt.Errorf("srvkit: RPCManager did not take the timeout")
+	}
+	return nil
 }
 
 // RegisteredCommand is one entry of the real registry.
